@@ -91,7 +91,7 @@ func (c *Check) Batch(tier string) int {
 		}
 		budget = kit.NewBudget(0)
 	}
-	outs := make([]RunOut, 0, n)
+	outs := make([]RunOut, 0, 4096)
 	var mu sync.Mutex
 	next := 0
 	var wg sync.WaitGroup
